@@ -3,10 +3,10 @@ package main
 // Calls: models of external functions, inlining, modular contract application.
 
 import (
-	"path"
-	"path/filepath"
 	"fmt"
 	"go/types"
+	"path"
+	"path/filepath"
 	"sort"
 	"strconv"
 	"strings"
@@ -262,6 +262,26 @@ func (e *Exec) model(s *State, c *ssa.Call, fn *ssa.Function, full string, args 
 		return ret(mkErr(format + wrapped))
 	case "errors.New":
 		return ret(mkErr(concreteArg(args[0], "message")))
+	case "errors.Join":
+		// nil when every argument is nil, else an error wrapping the non-nil ones
+		joined := ""
+		for _, a := range sliceElems(s, args[0]) {
+			iv, ok := a.(Iface)
+			if !ok {
+				unsupported("errors.Join of %T", a)
+			}
+			if iv.Dyn != nil {
+				tag := "error"
+				if op, ok := iv.V.(Opaque); ok {
+					tag = op.Tag
+				}
+				joined += "<" + tag + ">"
+			}
+		}
+		if joined == "" {
+			return ret(Iface{})
+		}
+		return ret(mkErr("join" + joined))
 	case "github.com/pkg/errors.New":
 		return ret(mkErr(concreteArg(args[0], "message")))
 	case "strings.Join":
@@ -443,6 +463,46 @@ func (e *Exec) model(s *State, c *ssa.Call, fn *ssa.Function, full string, args 
 		return ret(Iface{Dyn: errDynType, V: Opaque{Tag: "rtype:" + types.TypeString(iv.Dyn, nil)}})
 	case "dario.cat/mergo.WithTransformers":
 		return ret(Opaque{Tag: "mergo.WithTransformers"})
+	case "path/filepath.Dir", "path.Dir", "path/filepath.IsAbs", "path.IsAbs", "path/filepath.Clean":
+		t := textArg(args[0])
+		if as, ok := t.concrete(); ok {
+			switch full {
+			case "path/filepath.Dir":
+				return ret(lit(filepath.Dir(as)))
+			case "path.Dir":
+				return ret(lit(path.Dir(as)))
+			case "path/filepath.IsAbs":
+				return ret(mkBool(filepath.IsAbs(as)))
+			case "path.IsAbs":
+				return ret(mkBool(path.IsAbs(as)))
+			default:
+				return ret(lit(filepath.Clean(as)))
+			}
+		}
+		if strings.HasSuffix(full, "IsAbs") {
+			return ret(mkVar("isabs!"+sanitize(t.String()), SBool))
+		}
+		return ret(atom(pureAtomName(full[strings.LastIndex(full, ".")+1:], []string{t.String()})))
+	case "path/filepath.Join", "path.Join":
+		var parts []string
+		all := true
+		var names []string
+		for _, a := range sliceElems(s, args[0]) {
+			t := textArg(a)
+			names = append(names, t.String())
+			if cs, ok := t.concrete(); ok {
+				parts = append(parts, cs)
+			} else {
+				all = false
+			}
+		}
+		if all {
+			if full == "path.Join" {
+				return ret(lit(path.Join(parts...)))
+			}
+			return ret(lit(filepath.Join(parts...)))
+		}
+		return ret(atom(pureAtomName("Join", names)))
 	case "path.Ext", "path/filepath.Ext", "path.Base", "path/filepath.Base":
 		t := textArg(args[0])
 		if as, ok := t.concrete(); ok {
